@@ -47,6 +47,39 @@ WALL_CLOCK = {"time.time", "time.time_ns", "time.perf_counter", "time.monotonic"
               "datetime.datetime.today", "datetime.date.today", "os.urandom"}
 
 
+LOCAL_ZONE = {"time.localtime": "struct_time in the local zone", "time.mktime": "interprets its argument in the local zone", "time.ctime": "local-zone text",
+              "time.asctime": "local-zone text", "time.strftime": "formats the local time when no tuple is given", "time.tzset": "changes the process's zone",
+              "datetime.date.fromtimestamp": "date in the local zone", "locale.getlocale": "process locale", "locale.setlocale": "process locale",
+              "locale.atof": "locale-dependent parsing", "locale.atoi": "locale-dependent parsing", "os.getenv": "process environment", "os.getpid": "process id",
+              "os.cpu_count": "machine dependent", "socket.gethostname": "machine dependent", "platform.node": "machine dependent", "getpass.getuser": "user dependent"}
+
+
+def ambient_dependence(fn, node: ast.Call, d: str):
+    """(what, why) when the call's value depends on the process's time zone / locale / environment, else None.
+    datetime.fromtimestamp(x) without a tz argument converts to the LOCAL zone (utcfromtimestamp / tz=timezone.utc do not);
+    naive .astimezone() and .timestamp() of a naive datetime use the local zone too."""
+    if d == "datetime.datetime.fromtimestamp":
+        has_tz = len(node.args) >= 2 or any(k.arg in ("tz", None) for k in node.keywords)
+        if not has_tz:
+            return ("fromtimestamp() without tz", "datetime.fromtimestamp(t) with no tz converts the epoch value to the local time zone of the process")
+    if d in LOCAL_ZONE:
+        if d == "time.strftime" and len(node.args) >= 2:
+            return None
+        return (d + "()", LOCAL_ZONE[d])
+    if d.startswith("os.environ"):
+        return (d + "()", "process environment")
+    if isinstance(node.func, ast.Attribute):
+        if node.func.attr == "astimezone" and not node.args and not node.keywords:
+            return ("astimezone() without a zone", "converts to the local time zone of the process")
+        if node.func.attr == "timestamp" and not node.args and isinstance(node.func.value, ast.Call):
+            inner = fq_dotted(fn.module, node.func.value.func) or ""
+            if inner in ("datetime.datetime.fromisoformat", "datetime.datetime.strptime", "datetime.datetime.combine", "datetime.datetime"):
+                return (".timestamp() of a naive datetime", "a datetime without tzinfo is taken to be in the local time zone of the process")
+        if node.func.attr in ("environ",):
+            return None
+    return None
+
+
 def hidden_input_sites(repo, funcs):
     """(function, call node, dotted target) for every call in `funcs` that reads a process-global generator or the
     wall clock, resolved through each module's import table."""
@@ -223,7 +256,8 @@ def uuids(ctx: Ctx):
                     ctx.violation("D4", "HO.uuid", f"{f.qualname}: instance_id used in `{flow.dump(p)[:60]}`", f, node, why="behaviour depends on a per-run random tag", construct=f"{f.qualname}:instance_id-use")
     if n < 10:
         ctx.soft_fail(f"uuid rule saw only {n} uuid4 sites")
-    # other process-dependent sources: id(), hash() of strings, time in the step path
+    # other process-dependent sources: id(), hash() of strings, time in the step path, the ambient time zone / environment
+    n_amb_ok = n_amb_bad = 0
     for fn in repo.all_funcs():
         if fn.relpath.startswith((PKG + "/resources", PKG + "/app", PKG + "/reporting", PKG + "/util/fs", PKG + "/config")):  # output naming / CLI glue: not simulation behaviour
             continue
@@ -246,6 +280,17 @@ def uuids(ctx: Ctx):
                                       construct=f"{fn.qualname}:fs-order:{d or node.func.attr}")
                 if d in WALL_CLOCK and not fn.relpath.startswith(PKG + "/runner"):
                     ctx.violation("D4", "HO.process-value", f"{fn.qualname}: {d}()", fn, node, why="wall-clock time in simulation code", construct=f"{fn.qualname}:{d}")
+                amb = ambient_dependence(fn, node, d) if enclosing_func(node) is fn else None
+                if amb:
+                    n_amb_bad += 1
+                    ctx.violation("D4", "HO.ambient", f"{fn.qualname}: {amb[0]}", fn, node,
+                                  why=f"{amb[1]}: the same scenario gives a different result in a process with another time zone / locale / environment",
+                                  construct=f"{fn.qualname}:ambient:{amb[0]}")
+                elif d in ("datetime.datetime.utcfromtimestamp", "datetime.datetime.fromtimestamp", "datetime.datetime.fromisoformat") and enclosing_func(node) is fn:
+                    n_amb_ok += 1
+                    ctx.ok("D4", "HO.ambient", f"{fn.qualname}: {d.split('.')[-1]}(...) converts without consulting the process's time zone", fn, node)
+    if n_amb_ok < 4:
+        ctx.soft_fail(f"HO.ambient: only {n_amb_ok} clock conversions seen (expected the 5 conversions of SimTime and the schedule function)")
 
 
 def selftest():
